@@ -253,6 +253,7 @@ fn compose(r: &mut Rng, info: &RecvInfo, mistakes: usize) -> (Vec<String>, usize
 }
 
 pub fn run(seed: u64, n: usize, out: &mut Out, with_mistakes: bool) {
+    let no_sim = std::env::args().any(|a| a == "--no-sim");
     let src = include_str!("../corpus_fm.rs");
     let decls = recv::declarations(src);
     let recvs = corpus_fm::receivers();
@@ -303,7 +304,7 @@ pub fn run(seed: u64, n: usize, out: &mut Out, with_mistakes: bool) {
                     continue;
                 }
             };
-            let (case, ans) = meta_case_with(&te, &m, "recv", score_rows(&m, &cands));
+            let (case, ans) = meta_case_with(&te, &m, "recv", if no_sim { vec![] } else { score_rows(&m, &cands) });
             out.stat(if ans.starts_with("(ok") { "answers_ok" } else if ans.starts_with("(err") { "answers_err" } else { "answers_panic" }, 1);
             out.stat(&format!("injected_mistakes_{}", injected), 1);
             out.case_id("recv", &format!("r-{}", id), &case, &ans);
@@ -311,4 +312,157 @@ pub fn run(seed: u64, n: usize, out: &mut Out, with_mistakes: bool) {
         }
     }
     out.stat("receivers", recvs.len() as u64);
+}
+
+/// C09: every enum of the corpus × every input form over a superset of its variant names
+pub fn run_enums(seed: u64, n: usize, out: &mut Out) {
+    let src = include_str!("../corpus_fm.rs");
+    let decls = recv::declarations(src);
+    let recvs = corpus_fm::receivers();
+    for e in &recvs {
+        let info = (e.info)();
+        out.raw(&format!("decl {} FromMeta {}", info.name, ser::derive_input(&decls[info.name]).render()));
+        for (k, v) in (e.vals)() {
+            out.raw(&format!("oracle {}", tagged("val", vec![st(k), v]).render()));
+        }
+        for row in decl_oracle_rows(&decls[info.name]) {
+            out.raw(&format!("oracle {}", row.render()));
+        }
+    }
+    use crate::vals::Canon;
+    out.raw(&format!("oracle {}", tagged("val", vec![st("fn:fns :: dflt_u8"), crate::fns::dflt_u8().canon()]).render()));
+    out.raw(&format!("oracle {}", tagged("val", vec![st("fn:fns :: dflt_string"), crate::fns::dflt_string().canon()]).render()));
+    out.raw(&format!("oracle {}", tagged("val", vec![st("fn:fns :: dflt_i64"), crate::fns::dflt_i64().canon()]).render()));
+    let base = Rng::new(seed ^ 0xC09);
+    let mut id = 0usize;
+    let enums: Vec<&corpus_fm::RecvEntry> = recvs.iter().filter(|e| (e.info)().is_enum).collect();
+    let per_cap = (n / enums.len().max(1)).max(40);
+    for (k, e) in enums.iter().enumerate() {
+        let info = (e.info)();
+        let mut cands = BTreeSet::new();
+        // only this enum's own variant names (and their transforms), not nested receivers'
+        if let syn::Data::Enum(en) = &decls[info.name].data {
+            for v in &en.variants {
+                cands.extend(transforms(&v.ident.to_string()));
+                for it in recv::darling_items(&v.attrs) {
+                    if let darling_core::ast::NestedMeta::Meta(syn::Meta::NameValue(nv)) = it {
+                        if nv.path.is_ident("rename") {
+                            if let syn::Expr::Lit(syn::ExprLit { lit: syn::Lit::Str(s), .. }) = &nv.value {
+                                cands.insert(s.value());
+                            }
+                        }
+                    }
+                }
+            }
+        }
+        let mut all_cands = BTreeSet::new();
+        collect_names(&decls[info.name], &decls, &mut BTreeSet::new(), &mut all_cands);
+        let mut forms: Vec<String> = vec![
+            "x".into(), "x()".into(), "x(a, b)".into(), "x(\"lit\")".into(), "x = 5".into(), "x = \"zzz\"".into(), "x(zzz)".into(),
+            "x = true".into(), "x(a, b, c)".into(), "x(5)".into(), "x(zzz = 1)".into(),
+        ];
+        for v in info.valid.iter().chain(info.invalid.iter()) {
+            forms.push(format!("x{}", v));
+        }
+        for c in &cands {
+            forms.push(format!("x = \"{}\"", c));
+            let spellable = !c.is_empty() && c.chars().all(|ch| ch.is_ascii_alphanumeric() || ch == '_') && !c.chars().next().unwrap().is_ascii_digit();
+            if spellable {
+                forms.push(format!("x({})", c));
+                forms.push(format!("x({} = 1)", c));
+                forms.push(format!("x({} = \"s\")", c));
+                forms.push(format!("x({}())", c));
+                forms.push(format!("x({}(zzz = 1))", c));
+                forms.push(format!("x({}, {})", c, c));
+            }
+        }
+        let mut r = base.fork(k as u64);
+        if forms.len() > per_cap {
+            r.shuffle(&mut forms);
+            forms.truncate(per_cap);
+        }
+        let mut te = e.ty.clone();
+        te.kinds = vec!["Path"];
+        for f in &forms {
+            let m = match parse_meta_pub(f) {
+                Some(m) => m,
+                None => continue,
+            };
+            let (case, ans) = meta_case_with(&te, &m, "recv", score_rows(&m, &all_cands));
+            out.stat(if ans.starts_with("(ok") { "selected_a_variant" } else { "rejected" }, 1);
+            out.case_id("recv", &format!("e-{}", id), &case, &ans);
+            id += 1;
+        }
+        // absent form
+        let case = tagged("recv", vec![st(info.name), tagged("none", vec![]), tagged("oracle", vec![])]);
+        out.case_id("recv", &format!("e-{}", id), &case, &(te.none)());
+        id += 1;
+    }
+    out.stat("enums", enums.len() as u64);
+}
+
+/// C17: unknown names at edit distance 0..3 of every name in scope (valid, skipped, enclosing,
+/// flattened-in) injected into otherwise valid inputs
+pub fn run_suggest(seed: u64, n: usize, out: &mut Out) {
+    let no_sim = std::env::args().any(|a| a == "--no-sim");
+    let src = include_str!("../corpus_fm.rs");
+    let decls = recv::declarations(src);
+    let recvs = corpus_fm::receivers();
+    for e in &recvs {
+        let info = (e.info)();
+        out.raw(&format!("decl {} FromMeta {}", info.name, ser::derive_input(&decls[info.name]).render()));
+        for (k, v) in (e.vals)() {
+            out.raw(&format!("oracle {}", tagged("val", vec![st(k), v]).render()));
+        }
+        for row in decl_oracle_rows(&decls[info.name]) {
+            out.raw(&format!("oracle {}", row.render()));
+        }
+    }
+    use crate::vals::Canon;
+    out.raw(&format!("oracle {}", tagged("val", vec![st("fn:fns :: dflt_u8"), crate::fns::dflt_u8().canon()]).render()));
+    out.raw(&format!("oracle {}", tagged("val", vec![st("fn:fns :: dflt_string"), crate::fns::dflt_string().canon()]).render()));
+    out.raw(&format!("oracle {}", tagged("val", vec![st("fn:fns :: dflt_i64"), crate::fns::dflt_i64().canon()]).render()));
+    let base = Rng::new(seed ^ 0xC17);
+    let per = (n / recvs.len()).max(1);
+    let mut id = 0usize;
+    for (k, e) in recvs.iter().enumerate() {
+        let info = (e.info)();
+        let mut cands = BTreeSet::new();
+        collect_names(&decls[info.name], &decls, &mut BTreeSet::new(), &mut cands);
+        let cand_vec: Vec<String> = cands.iter().filter(|c| !c.is_empty() && c.chars().all(|ch| ch.is_ascii_alphanumeric() || ch == '_') && !c.chars().next().unwrap().is_ascii_digit()).cloned().collect();
+        if cand_vec.is_empty() {
+            continue;
+        }
+        let mut te = e.ty.clone();
+        te.kinds = vec!["Path"];
+        for j in 0..per {
+            let mut r = base.fork((k * 100_003 + j) as u64);
+            let mut name = r.pick(&cand_vec).clone();
+            let dist = r.below(4);
+            for _ in 0..dist {
+                name = mutate_name(&mut r, &name);
+            }
+            let src = if info.is_enum {
+                match r.below(3) {
+                    0 => format!("x({})", name),
+                    1 => format!("x({} = 1)", name),
+                    _ => format!("x = \"{}\"", name),
+                }
+            } else {
+                let (mut items, _) = compose(&mut r, &info, 0);
+                let pos = r.below(items.len() + 1);
+                items.insert(pos, format!("{} = 1", name));
+                format!("x({})", items.join(", "))
+            };
+            let m = match parse_meta_pub(&src) {
+                Some(m) => m,
+                None => continue,
+            };
+            let (case, ans) = meta_case_with(&te, &m, "recv", if no_sim { vec![] } else { score_rows(&m, &cands) });
+            out.stat(if ans.contains("Did you mean") { "with_suggestion" } else if ans.contains("Unknown field") { "unknown_without_suggestion" } else { "no_unknown_error" }, 1);
+            out.stat(&format!("edit_distance_{}", dist), 1);
+            out.case_id("recv", &format!("s-{}", id), &case, &ans);
+            id += 1;
+        }
+    }
 }
